@@ -246,6 +246,20 @@ def r52(ctx):
                       lambda n: n == f"{VAL}::validate_setup_channel", "Validator::validate_setup_channel",
                       "Ok(new channel) return", depth=0)
     # holder entry points reach the validator (C01 R1.6 covers the store); counterparty entry points: C03 R3.2
+    # "no counterparty commitment is signed for a channel above the maximum size": both counterparty signing entry points
+    # reach the LDK signing call and every Ok return only after Ok(validate_channel_value), which refuses value > max
+    CHN = LS + "channel::Channel"
+    is_sign = lambda n: n.endswith("::sign_counterparty_commitment")
+    for fn in ("sign_counterparty_commitment_tx", "sign_counterparty_commitment_tx_phase2"):
+        eb = p.fn(f"{CHN}::{fn}")
+        ev = fnview(ctx, eb)
+        sinks = [(bi, ln) for bi, ln, c in R.call_blocks_deep(ctx, ev, is_sign)] + R.success_blocks(ev)
+        ctx.floor("R5.2", f"signing call / Ok returns in {fn}", len(sinks), 2)
+        R.must_pass_guard(ctx, "R5.2", eb, sinks, lambda n: n == f"{VAL}::validate_channel_value", "Validator::validate_channel_value",
+                          "counterparty signature / Ok return", depth=0)
+    vb = p.fn(f"{SV}::validate_channel_value")
+    R.named_scenario_refused(ctx, "R5.2", vb, ["ChannelSetup.channel_value_sat > SimplePolicy.max_channel_size_sat"],
+                             f"{vb.name}/max-size", "validate_channel_value accepts a channel above max_channel_size_sat")
 
 
 def _is_existing_channel_return(fv, blk):
